@@ -250,7 +250,7 @@ Definition slot_agrees (c : slot_case) : bool :=
   | None => false
   end.
 
-Definition slot_prop_ok (c : slot_case) : bool :=
+Definition slot_outcome_ok (c : slot_case) : bool :=
   sc_ret c &&
   match sc_panic c with
   | Some p =>
@@ -261,7 +261,10 @@ Definition slot_prop_ok (c : slot_case) : bool :=
              | Some k => (0, timeout_err k) :: wresults (sc_script c)
              | None => match wend (sc_script c) with WRet r e => [(r, e)] | _ => [] end
              end)
-  end &&
+  end.
+
+Definition slot_prop_ok (c : slot_case) : bool :=
+  slot_outcome_ok c &&
   (if sc_fam c =? 0 then deadline_ok (sc_dur c) (sc_parent c) (sc_dl c) (sc_t1 c) else true) &&
   negb (sc_retatd c =? 0).
 
@@ -363,13 +366,54 @@ Definition seq_prop_ok (c : seq_case) : bool :=
   negb (sq_retatd c =? 0).
 
 (* ------------------------------------------------------------------ *)
+(* sequences of calls through ONE interceptor instance (fam 0) / fx (fam 1) *)
+
+Record sseq_call := mkSC
+  { cl_script : wscript; cl_dmode : option kind; cl_parent : option Z;
+    (* observed *)
+    cl_ret : bool; cl_panic : option Z; cl_stack : bool; cl_r : Z; cl_e : Z;
+    cl_dl : option Z; cl_t1 : Z }.
+
+Record sseq_case := mkSSeq
+  { ss_fam : Z; ss_dur : Z;
+    ss_calls : list sseq_call;
+    ss_sched : list (nat * ev);
+    ss_hobs : list (nat * ares);
+    ss_retatd : Z }.
+
+Definition call_as_slot (c : sseq_case) (i : nat) (cl : sseq_call) : slot_case :=
+  mkSlot (ss_fam c) (cl_script cl) (cl_dmode cl) [] 0 (ss_dur c) (cl_parent cl)
+         (proj i (ss_sched c))
+         (map snd (filter (fun o => Nat.eqb (fst o) i) (ss_hobs c)))
+         (cl_ret cl) (cl_panic cl) (cl_stack cl) (cl_r cl) (cl_e cl)
+         (cl_dl cl) (cl_t1 cl) (-1).
+
+Definition sseq_agrees (c : sseq_case) : bool :=
+  match wmrun_strict (wminit (map cl_script (ss_calls c))) (ss_sched c) with
+  | Some (ss, obs) =>
+    list_eqb iares_eqb obs (ss_hobs c) &&
+    forall_idx (fun i pr => wout_eqb (wsst (fst pr)) (call_as_slot c i (snd pr))) O
+               (combine ss (ss_calls c)) &&
+    Nat.eqb (length ss) (length (ss_calls c))
+  | None => false
+  end.
+
+(* every call, seen through its own events only: its own result, its own timeout
+   error or its own panic; deadline no later than its caller's and now+timeout;
+   it returned (no hang) *)
+Definition sseq_prop_ok (c : sseq_case) : bool :=
+  forall_idx (fun i cl => slot_prop_ok (call_as_slot c i cl)) O (ss_calls c) &&
+  negb (ss_retatd c =? 0).
+
+(* ------------------------------------------------------------------ *)
 
 Inductive case :=
 | CRest (c : rest_case)
 | CSlot (c : slot_case)
 | CClient (c : client_case)
 | CEngine (c : engine_case)
-| CSeq (c : seq_case).
+| CSeq (c : seq_case)
+| CSSeq (c : sseq_case).
 
 Definition agrees (c : case) : bool :=
   match c with
@@ -378,6 +422,7 @@ Definition agrees (c : case) : bool :=
   | CClient c => client_agrees c
   | CEngine c => engine_agrees c
   | CSeq c => seq_agrees c
+  | CSSeq c => sseq_agrees c
   end.
 
 Definition prop_ok (c : case) : bool :=
@@ -387,6 +432,7 @@ Definition prop_ok (c : case) : bool :=
   | CClient c => client_prop_ok c
   | CEngine c => engine_prop_ok c
   | CSeq c => seq_prop_ok c
+  | CSSeq c => sseq_prop_ok c
   end.
 
 (* diagnostics for replay files *)
